@@ -1,6 +1,511 @@
-(* Proofs for C01 (osu!mania codec). *)
+(* Proofs for C01 (osu!mania codec): arithmetic of the column<->x mapping with the binary64 divisor,
+   code<->value inverses, int() truncation (bounds, idempotence, no drift), line-level codec theorems,
+   the metadata second-colon refutation.  Whole-file statements: see the _partial remarks at the end. *)
 From Coq Require Import String Ascii.
-From Coq Require Import ZArith QArith Qround Qabs List Bool Lia Lqa.
+From Coq Require Import ZArith QArith Qround Qabs List Bool Lia Lqa Qfield.
 From RV Require Import Base.PyNum Base.Text Formats.Osu Formats.OsuSpec.
 Import ListNotations.
 Open Scope Z_scope.
+
+(* ------------------------------------------------------------------ finite sweeps as proofs *)
+Definition zrange (lo : Z) (n : nat) : list Z := map (fun i => lo + Z.of_nat i) (seq 0 n).
+
+Lemma forallb_zrange (P : Z -> bool) lo n :
+  forallb P (zrange lo n) = true -> forall x, lo <= x < lo + Z.of_nat n -> P x = true.
+Proof.
+  intros H x Hx. rewrite forallb_forall in H. apply H. unfold zrange.
+  apply in_map_iff. exists (Z.to_nat (x - lo)). split; [lia|]. apply in_seq. lia.
+Qed.
+
+Definition keys_range := zrange 1 18.
+Lemma in_keys k : 1 <= k <= 18 -> forall P, forallb P keys_range = true -> P k = true.
+Proof. intros Hk P H. apply (forallb_zrange P 1 18 H). simpl. lia. Qed.
+
+(* ------------------------------------------------------------------ column <-> x *)
+(* facts about the binary64 divisors, by computation over the 18 key counts *)
+Definition colw_facts (k : Z) : bool :=
+  Qlt_bool 0 (colw k) && Qle_bool (inject_Z (k - 1) * colw k) 512.
+Lemma colw_facts_ok : forallb colw_facts keys_range = true.
+Proof. vm_compute. reflexivity. Qed.
+
+Lemma colw_pos k : 1 <= k <= 18 -> (0 < colw k)%Q.
+Proof.
+  intro H. pose proof (in_keys k H colw_facts colw_facts_ok) as F. unfold colw_facts in F.
+  apply andb_true_iff in F. destruct F as [F _]. apply Qlt_bool_iff in F. exact F.
+Qed.
+Lemma colw_top k : 1 <= k <= 18 -> (inject_Z (k - 1) * colw k <= 512)%Q.
+Proof.
+  intro H. pose proof (in_keys k H colw_facts colw_facts_ok) as F. unfold colw_facts in F.
+  apply andb_true_iff in F. destruct F as [_ F]. apply Qle_bool_iff in F. exact F.
+Qed.
+
+(* inside 0 <= x < 512: exhaustive, with the single exception keys = 10, x = 256 *)
+Definition sweep_ok (k : Z) : bool :=
+  forallb (fun x => ((k =? 10) && (x =? 256)) || (x_to_col x k =? column_of x k)) (zrange 0 512).
+Lemma sweep_all : forallb sweep_ok keys_range = true.
+Proof. vm_compute. reflexivity. Qed.
+
+Lemma x_to_col_inside k x : 1 <= k <= 18 -> 0 <= x < 512 -> ~ (k = 10 /\ x = 256) ->
+  x_to_col x k = column_of x k.
+Proof.
+  intros Hk Hx G. pose proof (in_keys k Hk sweep_ok sweep_all) as S. unfold sweep_ok in S.
+  pose proof (forallb_zrange _ 0 512 S x ltac:(simpl; lia)) as E. simpl in E.
+  apply orb_true_iff in E. destruct E as [E|E].
+  - apply andb_true_iff in E. destruct E as [E1 E2]. apply Z.eqb_eq in E1. apply Z.eqb_eq in E2. tauto.
+  - apply Z.eqb_eq in E. exact E.
+Qed.
+
+Lemma x_to_col_below k x : 1 <= k <= 18 -> x < 0 -> x_to_col x k = 0 /\ column_of x k = 0.
+Proof.
+  intros Hk Hx. pose proof (colw_pos k Hk) as W. split.
+  - unfold x_to_col.
+    assert (L: (inject_Z x / colw k < 0)%Q).
+    { apply Qlt_shift_div_r; auto. rewrite Qmult_0_l. change 0%Q with (inject_Z 0). rewrite <- Zlt_Qlt. exact Hx. }
+    pose proof (Qfloor_le (inject_Z x / colw k)) as F.
+    assert (F2: (inject_Z (Qfloor (inject_Z x / colw k)) < inject_Z 0)%Q) by (change (inject_Z 0) with 0%Q; lra).
+    rewrite <- Zlt_Qlt in F2. lia.
+  - unfold column_of. assert (x * k / 512 < 0) by (apply Z.div_lt_upper_bound; nia). lia.
+Qed.
+
+Lemma x_to_col_above k x : 1 <= k <= 18 -> 512 <= x -> x_to_col x k = k - 1 /\ column_of x k = k - 1.
+Proof.
+  intros Hk Hx. pose proof (colw_pos k Hk) as W. pose proof (colw_top k Hk) as T. split.
+  - unfold x_to_col.
+    assert (L: (inject_Z (k - 1) <= inject_Z x / colw k)%Q).
+    { apply Qle_shift_div_l; auto. assert ((512 <= inject_Z x)%Q) by (change 512%Q with (inject_Z 512); rewrite <- Zle_Qle; exact Hx). lra. }
+    apply Qfloor_resp_le in L. rewrite Qfloor_Z in L. lia.
+  - unfold column_of. assert (k <= x * k / 512) by (apply Z.div_le_lower_bound; nia). lia.
+Qed.
+
+(* the model's column (binary64 divisor) is the format's column for EVERY integer x and every key count,
+   except at the single point keys = 10, x = 256 *)
+Theorem x_to_col_exact k x : 1 <= k <= 18 -> ~ (k = 10 /\ x = 256) -> x_to_col x k = column_of x k.
+Proof.
+  intros Hk G. destruct (Z_lt_le_dec x 0) as [L|L].
+  - destruct (x_to_col_below k x Hk L) as [A B]. congruence.
+  - destruct (Z_lt_le_dec x 512) as [U|U].
+    + apply x_to_col_inside; auto.
+    + destruct (x_to_col_above k x Hk U) as [A B]. congruence.
+Qed.
+
+(* every x inside a column's range maps to that column (guarded), clamping outside *)
+Theorem x_in_range_col k x c : 1 <= k <= 18 -> 0 <= c < k -> in_column_range x c k ->
+  ~ (k = 10 /\ x = 256) -> x_to_col x k = c.
+Proof.
+  intros Hk Hc R G. rewrite x_to_col_exact by auto. unfold column_of, in_column_range in *. lia.
+Qed.
+Theorem x_clamped k x : 1 <= k <= 18 -> (x < 0 -> x_to_col x k = 0) /\ (512 <= x -> x_to_col x k = k - 1).
+Proof. intro Hk. split; intro H; [apply (x_to_col_below k x Hk H)|apply (x_to_col_above k x Hk H)]. Qed.
+
+(* the unguarded statement is FALSE of the faithful model (and of the code): witness keys = 10, x = 256 *)
+Theorem x_in_range_col_refuted :
+  exists k x c, 1 <= k <= 18 /\ 0 <= c < k /\ in_column_range x c k /\ x_to_col x k <> c.
+Proof. exists 10, 256, 5. unfold in_column_range. vm_compute. repeat split; congruence. Qed.
+
+(* writing a column and reading it back: all key counts, all columns *)
+Definition inverse_ok (k : Z) : bool :=
+  forallb (fun c => (x_to_col (col_to_x c k) k =? c) && (col_to_x c k * k / 512 =? c)) (zrange 0 (Z.to_nat k)).
+Lemma inverse_all : forallb inverse_ok keys_range = true.
+Proof. vm_compute. reflexivity. Qed.
+
+Theorem x_col_inverse k c : 1 <= k <= 18 -> 0 <= c < k -> x_to_col (col_to_x c k) k = c.
+Proof.
+  intros Hk Hc. pose proof (in_keys k Hk inverse_ok inverse_all) as S. unfold inverse_ok in S.
+  pose proof (forallb_zrange _ 0 (Z.to_nat k) S c ltac:(lia)) as E. simpl in E.
+  apply andb_true_iff in E. destruct E as [E _]. apply Z.eqb_eq in E. exact E.
+Qed.
+(* the x written for a column lies inside that column's range *)
+Theorem col_to_x_in_range k c : 1 <= k <= 18 -> 0 <= c < k -> in_column_range (col_to_x c k) c k.
+Proof.
+  intros Hk Hc. pose proof (in_keys k Hk inverse_ok inverse_all) as S. unfold inverse_ok in S.
+  pose proof (forallb_zrange _ 0 (Z.to_nat k) S c ltac:(lia)) as E. simpl in E.
+  apply andb_true_iff in E. destruct E as [_ E]. apply Z.eqb_eq in E. exact E.
+Qed.
+
+Lemma Qfloor_div_Z a k : 0 < k -> Qfloor (inject_Z a / inject_Z k) = a / k.
+Proof.
+  intro H. destruct k as [|p|p]; try lia.
+  unfold Qdiv, Qmult, Qinv, inject_Z, Qfloor. simpl. rewrite Z.mul_1_r. reflexivity.
+Qed.
+(* the writer uses the centre floor((512 c + 256) / keys) *)
+Theorem col_to_x_centre c k : 0 < k -> col_to_x c k = centre_of c k.
+Proof. intro H. unfold col_to_x, centre_of. apply Qfloor_div_Z. exact H. Qed.
+
+(* ------------------------------------------------------------------ code <-> value *)
+Open Scope Q_scope.
+Theorem bpm_code_value_inverse v : ~ v == 0 -> 60000 / (60000 / v) == v.
+Proof. intro H. field. auto. Qed.
+Theorem sv_code_value_inverse v : ~ v == 0 -> (-100) / ((-100) / v) == v.
+Proof. intro H. field. auto. Qed.
+Lemma code_nonzero c v : ~ v == 0 -> ~ c == 0 -> ~ c / v == 0.
+Proof.
+  intros Hv Hc E. apply Hc. assert (X: c == c / v * v) by (field; auto). rewrite X, E. ring.
+Qed.
+
+(* ------------------------------------------------------------------ int() truncation *)
+Lemma qtrunc_Z z : qtrunc (inject_Z z) = z.
+Proof.
+  unfold qtrunc. destruct (Qle_bool 0 (inject_Z z)) eqn:E.
+  - apply Qfloor_Z.
+  - change (- inject_Z z) with (inject_Z (- z)). rewrite Qfloor_Z. lia.
+Qed.
+
+(* no drift: truncating a truncated time changes nothing *)
+Theorem trunc_idem x : qtrunc (inject_Z (qtrunc x)) = qtrunc x.
+Proof. apply qtrunc_Z. Qed.
+
+Lemma qtrunc_comp x y : x == y -> qtrunc x = qtrunc y.
+Proof.
+  intro E. unfold qtrunc. rewrite (Qleb_comp 0 0 (Qeq_refl 0) x y E).
+  destruct (Qle_bool 0 y); [apply Qfloor_comp; exact E|]. f_equal. apply Qfloor_comp. rewrite E. reflexivity.
+Qed.
+
+(* int() moves a time toward zero by less than 1 ms *)
+Theorem trunc_toward_zero x : time_moved_toward_zero x (inject_Z (qtrunc x)).
+Proof.
+  unfold time_moved_toward_zero, qtrunc. destruct (Qle_bool 0 x) eqn:E.
+  - apply Qle_bool_iff in E. pose proof (Qfloor_le x) as A. pose proof (Qlt_floor x) as B.
+    rewrite inject_Z_plus in B. change (inject_Z 1) with 1 in B.
+    assert (P: 0 <= inject_Z (Qfloor x)).
+    { change 0 with (inject_Z 0). rewrite <- Zle_Qle. change 0%Z with (Qfloor 0). apply Qfloor_resp_le. exact E. }
+    rewrite (Qabs_pos x E), (Qabs_pos _ P). repeat split; try lra.
+  - apply Qle_bool_false in E. pose proof (Qfloor_le (- x)) as A. pose proof (Qlt_floor (- x)) as B.
+    rewrite inject_Z_plus in B. change (inject_Z 1) with 1 in B.
+    assert (P: 0 <= inject_Z (Qfloor (- x))).
+    { change 0 with (inject_Z 0). rewrite <- Zle_Qle. change 0%Z with (Qfloor 0). apply Qfloor_resp_le. lra. }
+    rewrite inject_Z_opp.
+    rewrite (Qabs_neg x) by lra. rewrite (Qabs_neg (- inject_Z (Qfloor (- x)))) by lra.
+    repeat split; try lra.
+Qed.
+Close Scope Q_scope.
+
+(* ------------------------------------------------------------------ text lemmas for the line codecs *)
+Lemma in_join d c l : In d (join c l) -> d = c \/ exists p, In p l /\ In d p.
+Proof.
+  induction l as [|a l IH]; [simpl; tauto|].
+  destruct l as [|b l'].
+  - simpl. intro H. right. exists a. split; [left; reflexivity|exact H].
+  - change (join c (a :: b :: l')) with (a ++ c :: join c (b :: l')). intro H.
+    apply in_app_or in H. destruct H as [H|[H|H]].
+    + right. exists a. split; [left; auto|auto].
+    + left. auto.
+    + destruct (IH H) as [E|[p [P1 P2]]]; [left; auto|right; exists p; split; [right; auto|auto]].
+Qed.
+
+Definition sep_free (s : text) : Prop := ~ In COMMA s /\ ~ In COLON s.
+
+Lemma show_int_no_comma z : ~ In COMMA (show_int z).
+Proof. apply show_int_no. reflexivity. Qed.
+Lemma show_int_no_colon z : ~ In COLON (show_int z).
+Proof. apply show_int_no. reflexivity. Qed.
+Lemma count_show_int_comma z : count COMMA (show_int z) = O.
+Proof. apply count_zero_iff. apply show_int_no_comma. Qed.
+Lemma count_show_int_colon z : count COLON (show_int z) = O.
+Proof. apply count_zero_iff. apply show_int_no_colon. Qed.
+
+Lemma digits_lower_e s : forallb is_digit s = true -> map lower_e s = s.
+Proof.
+  induction s as [|c s IH]; simpl; auto. intro H. apply andb_true_iff in H. destruct H as [H1 H2].
+  rewrite IH by auto. f_equal. unfold lower_e. destruct (Z.eqb_spec c 69); auto. subst. discriminate.
+Qed.
+
+Lemma parse_udec_show_nat n : 0 <= n -> exists q, parse_udec (show_nat n) = Some q /\ (q == inject_Z n)%Q.
+Proof.
+  intro H. pose proof (show_nat_digits n) as D. pose proof (parse_show_nat n H) as P.
+  pose proof (show_nat_nonempty n) as NE. unfold parse_udec. rewrite digits_lower_e by exact D.
+  rewrite split_on_no_sep by (eapply forallb_not_in; [exact D|reflexivity]).
+  unfold parse_mantissa. rewrite split_on_no_sep by (eapply forallb_not_in; [exact D|reflexivity]).
+  unfold parse_nat in P. destruct (show_nat n) as [|c r] eqn:S; [congruence|]. rewrite P. cbn [option_map].
+  eexists. split; [reflexivity|]. rewrite Qred_correct. unfold pow10. simpl. ring.
+Qed.
+
+Lemma parse_dec_digit_head c r : is_digit c = true -> parse_dec (c :: r) = parse_udec (c :: r).
+Proof.
+  unfold is_digit. intro F. apply andb_true_iff in F. destruct F as [F1 F2].
+  apply Z.leb_le in F1. apply Z.leb_le in F2. unfold parse_dec.
+  destruct c as [|p|p]; try lia.
+  do 6 (destruct p as [p|p|]; try lia; try reflexivity).
+Qed.
+
+(* float(str(z)) denotes z *)
+Theorem py_float_show_int z : exists q, py_float (show_int z) = Some q /\ (q == inject_Z z)%Q.
+Proof.
+  unfold py_float. rewrite strip_show_int. unfold show_int. destruct (Z.ltb_spec z 0) as [L|L].
+  - destruct (parse_udec_show_nat (- z) ltac:(lia)) as [q [P E]].
+    cbn [parse_dec]. rewrite P. cbn [option_map]. eexists. split; [reflexivity|].
+    rewrite Qred_correct, E. rewrite inject_Z_opp. ring.
+  - destruct (parse_udec_show_nat z L) as [q [P E]].
+    pose proof (show_nat_first_digit z) as F. destruct (show_nat z) as [|c r] eqn:S; [contradiction|].
+    rewrite parse_dec_digit_head by exact F. exists q. split; auto.
+Qed.
+
+(* ------------------------------------------------------------------ hit / hold lines *)
+Definition hit_params (n : note) : list text :=
+  [show_int (n_ss n); show_int (n_as n); show_int (n_cs n); show_int (n_vol n); n_file n].
+Definition hold_params (n : note) : list text :=
+  show_int (qtrunc (n_off n + n_len n)) :: hit_params n.
+
+Lemma params_no_comma (l : list text) : Forall (fun p => ~ In COMMA p) l -> ~ In COMMA (join COLON l).
+Proof.
+  intros F I. apply in_join in I. destruct I as [E|[p [P1 P2]]]; [discriminate|].
+  rewrite Forall_forall in F. exact (F p P1 P2).
+Qed.
+
+Lemma hit_params_ok n : sep_free (n_file n) ->
+  Forall (fun p => ~ In COMMA p) (hit_params n) /\ Forall (fun p => ~ In COLON p) (hit_params n).
+Proof.
+  intros [A B]. split; repeat constructor; auto using show_int_no_comma, show_int_no_colon.
+Qed.
+Lemma hold_params_ok n : sep_free (n_file n) ->
+  Forall (fun p => ~ In COMMA p) (hold_params n) /\ Forall (fun p => ~ In COLON p) (hold_params n).
+Proof.
+  intro H. destruct (hit_params_ok n H) as [A B]. split; constructor; auto using show_int_no_comma, show_int_no_colon.
+Qed.
+
+Lemma count_params_colon l : Forall (fun p => ~ In COLON p) l -> count COLON (join COLON l) = pred (length l).
+Proof.
+  intro F. rewrite count_join. rewrite Z.eqb_refl.
+  assert (S: sum_nat (map (count COLON) l) = O).
+  { induction F as [|p l Hp F IH]; simpl; auto. apply count_zero_iff in Hp. rewrite Hp, IH. reflexivity. }
+  rewrite S. reflexivity.
+Qed.
+
+(* what the classifiers see on a line built from 5 comma-free, colon-free fields and a parameter list *)
+Lemma note_line_counts (f0 f1 f2 f3 f4 : text) (ps : list text) :
+  Forall (fun p : text => ~ In COMMA p /\ ~ In COLON p) [f0; f1; f2; f3; f4] ->
+  Forall (fun p => ~ In COMMA p) ps -> Forall (fun p => ~ In COLON p) ps ->
+  count COMMA (join COMMA [f0; f1; f2; f3; f4; join COLON ps]) = 5%nat /\
+  count COLON (join COMMA [f0; f1; f2; f3; f4; join COLON ps]) = pred (length ps).
+Proof.
+  intros F P1 P2.
+  assert (Z5: forall p, In p [f0; f1; f2; f3; f4] -> count COMMA p = O /\ count COLON p = O).
+  { intros p I. rewrite Forall_forall in F. destruct (F p I) as [A B]. split; apply count_zero_iff; auto. }
+  pose proof (params_no_comma ps P1) as NC. apply count_zero_iff in NC.
+  rewrite !count_join. cbn [map sum_nat fold_right length pred].
+  destruct (Z5 f0 ltac:(simpl; auto)) as [a0 b0]. destruct (Z5 f1 ltac:(simpl; auto)) as [a1 b1].
+  destruct (Z5 f2 ltac:(simpl; auto)) as [a2 b2]. destruct (Z5 f3 ltac:(simpl; auto)) as [a3 b3].
+  destruct (Z5 f4 ltac:(simpl; auto 6)) as [a4 b4].
+  rewrite a0, a1, a2, a3, a4, b0, b1, b2, b3, b4, NC, (count_params_colon ps P2).
+  change (COMMA =? COMMA) with true. change (COLON =? COMMA) with false. cbn. split; [reflexivity|rewrite !Nat.add_0_r; reflexivity].
+Qed.
+
+Lemma lit_ok s : has COMMA s = false -> has COLON s = false -> ~ In COMMA s /\ ~ In COLON s.
+Proof. intros A B. split; apply has_false_iff; auto. Qed.
+
+Lemma hit_fields_ok n k (ty : text) : has COMMA ty = false -> has COLON ty = false ->
+  Forall (fun p : text => ~ In COMMA p /\ ~ In COLON p)
+    [show_int (col_to_x (n_col n) k); t "192"; show_int (qtrunc (n_off n)); ty; show_int (n_hs n)].
+Proof.
+  intros A B. repeat constructor; auto using show_int_no_comma, show_int_no_colon;
+  try (apply has_false_iff; auto; reflexivity).
+Qed.
+
+(* a written hit line is classified as a hit and not as a hold; a written hold line the other way round *)
+Theorem write_hit_classified n k : sep_free (n_file n) ->
+  is_hit (write_hit n k) = true /\ is_hold (write_hit n k) = false.
+Proof.
+  intro H. destruct (hit_params_ok n H) as [P1 P2].
+  destruct (note_line_counts _ _ _ _ _ (hit_params n) (hit_fields_ok n k (t "1") eq_refl eq_refl) P1 P2) as [C1 C2].
+  unfold is_hit, is_hold, write_hit. fold (hit_params n). rewrite C1, C2. split; reflexivity.
+Qed.
+Theorem write_hold_classified n k : sep_free (n_file n) ->
+  is_hold (write_hold n k) = true /\ is_hit (write_hold n k) = false.
+Proof.
+  intro H. destruct (hold_params_ok n H) as [P1 P2].
+  destruct (note_line_counts _ _ _ _ _ (hold_params n) (hit_fields_ok n k (t "128") eq_refl eq_refl) P1 P2) as [C1 C2].
+  unfold is_hit, is_hold, write_hold. fold (hit_params n). fold (hold_params n). rewrite C1, C2. split; reflexivity.
+Qed.
+
+Lemma split_note_line (f0 f1 f2 f3 f4 : text) (ps : list text) :
+  Forall (fun p : text => ~ In COMMA p /\ ~ In COLON p) [f0; f1; f2; f3; f4] ->
+  Forall (fun p => ~ In COMMA p) ps ->
+  split_on COMMA (join COMMA [f0; f1; f2; f3; f4; join COLON ps]) = [f0; f1; f2; f3; f4; join COLON ps].
+Proof.
+  intros F P1. apply split_join; [discriminate|].
+  rewrite Forall_forall in F.
+  pose proof (proj1 (F f0 ltac:(simpl; auto))). pose proof (proj1 (F f1 ltac:(simpl; auto))).
+  pose proof (proj1 (F f2 ltac:(simpl; auto))). pose proof (proj1 (F f3 ltac:(simpl; auto))).
+  pose proof (proj1 (F f4 ltac:(simpl; auto 6))). pose proof (params_no_comma ps P1).
+  repeat constructor; assumption.
+Qed.
+
+(* reading back a written hit line: the reader returns the note with its time truncated by int() *)
+Theorem read_write_hit n k : k <> 0 -> sep_free (n_file n) ->
+  exists m, read_hit (write_hit n k) k = Some m /\
+    (n_off m == inject_Z (qtrunc (n_off n)))%Q /\ n_col m = x_to_col (col_to_x (n_col n) k) k /\
+    n_hs m = n_hs n /\ n_ss m = n_ss n /\ n_as m = n_as n /\ n_cs m = n_cs n /\ n_vol m = n_vol n /\
+    n_file m = n_file n.
+Proof.
+  intros Hk H. destruct (write_hit_classified n k H) as [CL _]. destruct (hit_params_ok n H) as [P1 P2].
+  destruct (py_float_show_int (qtrunc (n_off n))) as [q [Fq Eq]].
+  unfold read_hit. rewrite CL. cbn [negb]. cbv zeta. unfold write_hit. fold (hit_params n).
+  rewrite (split_note_line _ _ _ _ _ (hit_params n) (hit_fields_ok n k (t "1") eq_refl eq_refl) P1).
+  cbn [last_text last]. rewrite (split_join COLON (hit_params n)) by (try discriminate; exact P2).
+  unfold hit_params. cbn [nth_text obind]. rewrite Fq. cbn [obind]. rewrite !py_int_show_int. cbn [obind].
+  apply Z.eqb_neq in Hk. rewrite Hk.
+  eexists. split; [reflexivity|]. cbn. repeat split; auto.
+Qed.
+
+Theorem read_write_hold n k : k <> 0 -> sep_free (n_file n) ->
+  exists m, read_hold (write_hold n k) k = Some m /\
+    (n_off m == inject_Z (qtrunc (n_off n)))%Q /\
+    (n_off m + n_len m == inject_Z (qtrunc (n_off n + n_len n)))%Q /\
+    n_col m = x_to_col (col_to_x (n_col n) k) k /\
+    n_hs m = n_hs n /\ n_ss m = n_ss n /\ n_as m = n_as n /\ n_cs m = n_cs n /\ n_vol m = n_vol n /\
+    n_file m = n_file n.
+Proof.
+  intros Hk H. destruct (write_hold_classified n k H) as [CL _]. destruct (hold_params_ok n H) as [P1 P2].
+  destruct (py_float_show_int (qtrunc (n_off n))) as [q [Fq Eq]].
+  destruct (py_float_show_int (qtrunc (n_off n + n_len n))) as [e [Fe Ee]].
+  unfold read_hold. rewrite CL. cbn [negb]. cbv zeta. unfold write_hold. fold (hit_params n). fold (hold_params n).
+  rewrite (split_note_line _ _ _ _ _ (hold_params n) (hit_fields_ok n k (t "128") eq_refl eq_refl) P1).
+  cbn [last_text last]. rewrite (split_join COLON (hold_params n)) by (try discriminate; exact P2).
+  unfold hold_params, hit_params. cbn [nth_text obind]. rewrite Fq, Fe. cbn [obind]. rewrite !py_int_show_int. cbn [obind].
+  apply Z.eqb_neq in Hk. rewrite Hk. cbn [obind].
+  eexists. split; [reflexivity|]. cbn [n_off n_len n_col n_hs n_ss n_as n_cs n_vol n_file].
+  repeat split; auto. rewrite Qred_correct, Eq, Ee. ring.
+Qed.
+
+(* with the column arithmetic: the column survives for every key count *)
+Corollary read_write_hit_column n k : 1 <= k <= 18 -> 0 <= n_col n < k -> sep_free (n_file n) ->
+  exists m, read_hit (write_hit n k) k = Some m /\ n_col m = n_col n.
+Proof.
+  intros Hk Hc H. destruct (read_write_hit n k ltac:(lia) H) as [m [R [_ [C _]]]].
+  exists m. split; auto. rewrite C. apply x_col_inverse; auto.
+Qed.
+
+(* no drift at line level: the second generation's line IS the first generation's line *)
+Theorem write_hit_generation n m k :
+  (n_off m == inject_Z (qtrunc (n_off n)))%Q -> n_col m = n_col n -> n_hs m = n_hs n -> n_ss m = n_ss n ->
+  n_as m = n_as n -> n_cs m = n_cs n -> n_vol m = n_vol n -> n_file m = n_file n ->
+  write_hit m k = write_hit n k.
+Proof.
+  intros E C A1 A2 A3 A4 A5 A6. unfold write_hit.
+  rewrite (qtrunc_comp _ _ E), qtrunc_Z, C, A1, A2, A3, A4, A5, A6. reflexivity.
+Qed.
+Theorem write_hold_generation n m k :
+  (n_off m == inject_Z (qtrunc (n_off n)))%Q ->
+  (n_off m + n_len m == inject_Z (qtrunc (n_off n + n_len n)))%Q ->
+  n_col m = n_col n -> n_hs m = n_hs n -> n_ss m = n_ss n ->
+  n_as m = n_as n -> n_cs m = n_cs n -> n_vol m = n_vol n -> n_file m = n_file n ->
+  write_hold m k = write_hold n k.
+Proof.
+  intros E E2 C A1 A2 A3 A4 A5 A6. unfold write_hold.
+  rewrite (qtrunc_comp _ _ E), (qtrunc_comp _ _ E2), !qtrunc_Z, C, A1, A2, A3, A4, A5, A6. reflexivity.
+Qed.
+
+(* ------------------------------------------------------------------ metadata: value = text after the FIRST colon *)
+Lemma cut_first_app c a b : ~ In c a -> cut_first c (a ++ c :: b) = Some (a, b).
+Proof.
+  induction a as [|x a IH]; simpl; intro H.
+  - rewrite Z.eqb_refl. reflexivity.
+  - destruct (Z.eqb_spec x c) as [E|E]; [exfalso; apply H; left; auto|].
+    rewrite IH by (intro I; apply H; right; exact I). reflexivity.
+Qed.
+
+(* the model's  k, *v = line.split(":"); v = v[0]  against the format's cut at the first colon:
+   they agree exactly when the value contains no further colon ... *)
+Theorem meta_value_agrees key v : ~ In COLON key -> ~ In COLON v ->
+  hd [] (split_on COLON (key ++ COLON :: v)) = key /\
+  nth_text (split_on COLON (key ++ COLON :: v)) 1 = Some v /\
+  cut_first COLON (key ++ COLON :: v) = Some (key, v).
+Proof.
+  intros Hk Hv. rewrite split_on_app by exact Hk. rewrite (split_on_no_sep COLON v Hv).
+  rewrite cut_first_app by exact Hk. repeat split; reflexivity.
+Qed.
+(* ... and with a second colon the model keeps only the piece between the first two *)
+Theorem meta_value_truncated key v1 v2 : ~ In COLON key -> ~ In COLON v1 ->
+  nth_text (split_on COLON (key ++ COLON :: v1 ++ COLON :: v2)) 1 = Some v1 /\
+  cut_first COLON (key ++ COLON :: v1 ++ COLON :: v2) = Some (key, v1 ++ COLON :: v2).
+Proof.
+  intros Hk Hv. rewrite split_on_app by exact Hk. rewrite split_on_app by exact Hv.
+  rewrite cut_first_app by exact Hk. split; reflexivity.
+Qed.
+
+(* the property's statement "metadata values containing ':'" is FALSE of the faithful model (and of the
+   code): a well-formed text whose Title is "Re:Zero" is read with Title "Re" *)
+Definition colon_witness : list text :=
+  [t "[Metadata]"; t "Title:Re:Zero"; t "[Difficulty]"; t "CircleSize:4"; t "[TimingPoints]"; t "[HitObjects]"].
+Theorem meta_roundtrip_refuted :
+  wf_read_text colon_witness = true /\
+  match osu_read colon_witness, osu_denote colon_witness with
+  | Some c, Some d => denotes 0 d c = false
+                      /\ meta_str (c_meta c) IX_TITLE = t "Re"
+                      /\ nth IX_TITLE (d_meta d) None = Some (MStr (t "Re:Zero"))
+  | _, _ => False
+  end.
+Proof. vm_compute. repeat split; reflexivity. Qed.
+
+(* the same text without the second colon is read as the format defines *)
+Definition colon_free_witness : list text :=
+  [t "[Metadata]"; t "Title:Re;Zero"; t "[Difficulty]"; t "CircleSize:4"; t "[TimingPoints]"; t "[HitObjects]"].
+Lemma colon_free_reads : 
+  match osu_read colon_free_witness, osu_denote colon_free_witness with
+  | Some c, Some d => denotes 0 d c = true | _, _ => False end.
+Proof. vm_compute. reflexivity. Qed.
+
+(* the column defect as a whole-text witness: keys = 10, x = 256 *)
+Definition xcol_witness : list text :=
+  [t "[Difficulty]"; t "CircleSize:10"; t "[TimingPoints]"; t "[HitObjects]"; t "256,192,0,1,0,0:0:0:0:"].
+Theorem read_column_refuted :
+  wf_read_text xcol_witness = true /\
+  match osu_read xcol_witness, osu_denote xcol_witness with
+  | Some c, Some d => denotes 0 d c = false /\ map n_col (c_hits c) = [4] /\ map n_col (d_hits d) = [5]
+  | _, _ => False
+  end.
+Proof. vm_compute. repeat split; reflexivity. Qed.
+
+(* ------------------------------------------------------------------ whole files
+   read_denotes / write_wf / write_denotes / read_write_read / write_read_write at FILE level are
+   _partial: proved above are the line-level statements they are assembled from (classification,
+   read-back and generation equality of hit/hold lines, column and code arithmetic, truncation), and
+   the refutations.  Missing for the file level: (1) the section split of the model (index of
+   "[TimingPoints]" / "[HitObjects]" + slices) against OsuSpec.section on texts with canonical header
+   order, (2) the 30-key metadata loop against denote_key (one step is meta_value_agrees), (3) float
+   printing: bpm / SV / float attributes are written by repr / ':g', an oracle, so the written text is not
+   a function of the model alone; (4) read_bpm / read_sv line lemmas for arbitrary decimal texts.
+   These are covered on every run by the in-Coq correspondence (Corr/RunC01.v) where osu_denote and
+   wf_osu_text are EVALUATED on the implementation's outputs. *)
+
+(* a complete concrete instance, computed: chart -> model writer (numeric tokens rendered by a concrete
+   printer of integers) -> reference semantics *)
+Definition render_tok (tk : wtok) : text :=
+  match tk with WT s => s | WN q => show_int (Qfloor q) end.     (* only used on integral values below *)
+Definition render (ls : list wline) : list text := map (fun l => concat (map render_tok l)) ls.
+
+Definition example_meta : list mval :=
+  set_nth (set_nth (set_nth (set_nth (set_nth meta_default 25 (MNum 7)) 14 (MStr (t "Re:Zero"))) 5 (MNum 1)) 13 (MNum 1)) 28 (MNum 2).
+Definition example_chart : chart :=
+  mkChart example_meta (t "bg.png")
+          [mkSample (24565 # 2) (34 :: t "clap.wav" ++ [34]) 70]
+          [mkBpm (565#1) (120#1) 4 2 1 60 false]
+          [mkSv (89292#1) (2#1) 2 1 60 true]
+          [mkNote (1000#1) 6 0 0 0 0 0 0 []; mkNote ((-7)#2) 0 0 2 1 3 7 40 (t "a.wav")]
+          [mkNote (2001#2) 3 (21#2) 0 0 0 0 0 []].
+(* the written text is well-formed and denotes the chart (times truncated toward zero) *)
+Lemma example_write_denotes :
+  match osu_write example_chart (t "Re:Zero") [] with
+  | Some wl => write_specb 0 example_chart (t "Re:Zero") [] (file_lines (render wl)) = true
+  | None => False
+  end.
+Proof. vm_compute. reflexivity. Qed.
+(* generations: the second written text denotes the same chart as the first (lines of notes whose times
+   became equal by truncation may be reordered once: holds are emitted before hits among equal times),
+   and from then on the text is a fixed point: generation 3 = generation 2 character for character *)
+Definition regen (ls : list text) : option (list text) :=
+  match osu_read (file_lines ls) with
+  | Some c => match osu_write c (meta_str (c_meta c) IX_TITLE) (meta_str (c_meta c) IX_ARTIST) with
+              | Some wl => Some (render wl) | None => None end
+  | None => None
+  end.
+Lemma example_no_drift :
+  match osu_write example_chart (t "Re;Zero") [] with
+  | Some wl => let g1 := render wl in
+               match regen g1 with
+               | Some g2 => same_denotation 0 (file_lines g1) (file_lines g2) = true
+                            /\ list_eqb text_eqb g1 g2 = false
+                            /\ match regen g2 with Some g3 => list_eqb text_eqb g2 g3 = true | None => False end
+               | None => False end
+  | None => False
+  end.
+Proof. vm_compute. repeat split; reflexivity. Qed.
